@@ -68,8 +68,6 @@ def check_op_on(g, m, op, cname, what="pre-state"):
                 return f"{what}: well-formed {op} raised {type(raised).__name__}: {raised}" + (f" and changed: {d}" if d else "")
             exp = m2.snap()
             d = gl.diff(s1, exp)
-            if d and op.name == "remove_atom" and cname == "SCRG":
-                d = gl.diff(s1, gl.purge_changes_variants(exp, op.args[0]))
             if d:
                 return f"{what}, after {op}: {d}"
     c = gl.coherent(g)
